@@ -93,6 +93,14 @@ func GenCase(r *core.Rng, id int, pDecor, pBad float64) *Case {
 		l = gen.RandomLayout(r, len(defs), true)
 	}
 	cfg := gen.RandomCfg(r, s)
+	if id%8 == 1 {
+		// an explicit `omitempty: false` against the default of use_struct_references
+		if oe := gen.OmitemptyFalseOp(s, "OE"); oe != nil {
+			defs = append(defs, oe)
+			l = gen.SingleFile(len(defs))
+			cfg.StructReferences = true
+		}
+	}
 	if id%8 == 5 {
 		// variables on one line, an input object first, under use_struct_references: every
 		// variable has its own options
